@@ -32,7 +32,7 @@ impl<T> ServerTask<T> where T: RequestHandler {
     pub open spec fn wf(&self) -> bool { self.tracker.wf() && !self.rx.all_senders_dropped() }
 
 //@fn rodbus/src/tcp/server.rs | ServerTask<T>::new | tags=C15,C16
-//@|    ensures r.filter == filter, r.decode == decode, r.wf(), r.tracker@.dom().len() == 0, r.tracker.id == 0,
+//@|    ensures r.filter == filter, r.decode == decode, r.wf(), r.tracker@.dom().len() == 0,
 //@|        r.connection_handler == connection_handler, r.handlers == handlers, r.listener == listener,
 //@|        r.tracker.max_sessions == (if max_sessions == 0 { 1 } else { max_sessions }),
 
